@@ -492,7 +492,7 @@ def _binop(name):
     uf = getattr(_np, name)
 
     def op(a, b):
-        if not isinstance(b, (SymArray, SV, XorSet, _np.ndarray, _np.generic, int, float, bool, list, tuple)):
+        if not isinstance(b, (SymArray, SV, XorSet, _np.ndarray, _np.generic, int, float, bool, list, tuple, bytes)):
             if hasattr(b, "__array_ufunc__"):
                 return NotImplemented if type(b).__array_ufunc__ is None else b.__array_ufunc__(uf, "__call__", a, b)
             return NotImplemented
@@ -738,6 +738,29 @@ def result_dtype(ufunc, inputs):
     return r
 
 
+def _S_compare(name, a, b):
+    """(in)equality of byte strings held as NUL-padded byte matrices (also against bytes scalars): all bytes equal after padding"""
+    def mat(v):
+        if isinstance(v, SymArray) and v.dtype.kind == "S":
+            return v.vals
+        if isinstance(v, (bytes, _np.bytes_)):
+            return obj(_np.frombuffer(bytes(v), dtype=_np.uint8))
+        if isinstance(v, _np.ndarray) and v.dtype.kind == "S":
+            return SymArray.from_S(v).vals
+        raise UnsupportedSymbolicOp(f"comparison of byte strings with {type(v).__name__}")
+    ma, mb = mat(a), mat(b)
+    k = _b.max(ma.shape[-1], mb.shape[-1])
+    pad = lambda m: _np.concatenate([m, _np.zeros(m.shape[:-1] + (k - m.shape[-1],), dtype=object)], axis=-1) if m.shape[-1] < k else m
+    ma, mb = _np.broadcast_arrays(pad(ma), pad(mb))
+    out = _np.empty(ma.shape[:-1], dtype=object)
+    for pos in _np.ndindex(*out.shape):
+        r = True
+        for j in _b.range(k):
+            r = S_land(r, S_eq(ma[pos][j], mb[pos][j]))
+        out[pos] = r if name == "equal" else S_not(r)
+    return SymArray(out, bool) if out.ndim else out[()]
+
+
 def apply_ufunc(ufunc, method, inputs, out, kwargs):
     name = ufunc.__name__
     for i in inputs:
@@ -762,6 +785,8 @@ def apply_ufunc(ufunc, method, inputs, out, kwargs):
             o.vals[...] = obj(res)
             return o
         return wrap_real(res)
+    if name in ("equal", "not_equal") and _b.any(isinstance(i, SymArray) and i.dtype.kind == "S" for i in inputs):
+        return _S_compare(name, inputs[0], inputs[1])
     if name == "log10" or name == "log":
         from .floats import sym_log
         return sym_log(name, inputs[0])
